@@ -148,30 +148,31 @@ def compare(snap, scenario, out, cfg, rc, stderr, first=0, names_before=()):
     rej_opt = {rej_name(r['path']) for r in out.get('rejectsOptional', [])}
     if not (rej_req <= rej_got <= (rej_req | rej_opt)):
         probs.append(('rej-set', 'reject files %s, reference demands %s (optional %s)' % (sorted(rej_got), sorted(rej_req), sorted(rej_opt))))
-    # reject contents: exactly the failed hunks of that file patch, in order
+    # reject contents: the failed hunks of every file patch of the failing patch for that file, in the order of the patch
     failing_idx = out['failingPatch']
     if failing_idx:
         fps = series[failing_idx - 1]['fps']
-        want = {}
         for r in list(out['rejects']) + list(out.get('rejectsOptional', [])):
-            # all file patches of the failing patch that target this path and have failed hunks, in order
-            want.setdefault(rej_name(r['path']), [])
-        for r in list(out['rejects']) + list(out.get('rejectsOptional', [])):
-            pass
-        for rp in rej_got & (rej_req | rej_opt):
-            header, hunks = split_rej(files[rp][0])
-            cands = [r for r in list(out['rejects']) + list(out.get('rejectsOptional', [])) if rej_name(r['path']) == rp]
-            ok = False
-            for r in cands:
-                for fp in fps:
-                    hs = fp_hunks(fp)
-                    sel = [hs[i - 1] for i in sorted(r['failed']) if i - 1 < len(hs)]
-                    if sel == hunks:
-                        ok = True
-            if not ok:
-                probs.append(('rej-content', '%s does not hold exactly the failed hunks: %r' % (rp, files[rp][0][:300])))
-            if not header.startswith(b'diff --git ') or b'\n--- ' not in header or b'\n+++ ' not in header:
-                probs.append(('rej-content', '%s has no proper header: %r' % (rp, header[:200])))
+            rp = rej_name(r['path'])
+            if rp not in rej_got:
+                continue
+            want = []
+            for part in r['parts']:
+                hs = fp_hunks(fps[part['j'] - 1])
+                want += [hs[i - 1] for i in sorted(part['failed']) if i - 1 < len(hs)]
+            sections = re.split(rb'(?m)^(?=diff --git )', files[rp][0])
+            got, bad_header = [], False
+            for sec in sections:
+                if not sec:
+                    continue
+                header, hunks = split_rej(sec)
+                got += hunks
+                if not header.startswith(b'diff --git ') or b'\n--- ' not in header or b'\n+++ ' not in header:
+                    bad_header = True
+            if got != want:
+                probs.append(('rej-content', '%s does not hold exactly the failed hunks (%d expected, %d found): %r' % (rp, len(want), len(got), files[rp][0][:300])))
+            if bad_header:
+                probs.append(('rej-content', '%s has a section without a proper header: %r' % (rp, files[rp][0][:200])))
     # files
     for p in set(files) | set(exp):
         if p in rej_got:
